@@ -23,7 +23,7 @@ CLAIMS = {
    text="Lean 4 theorems about the model of Richardson (rule = Lagrange basis coefficients of node 1 among the nodes "
         "rho^-(order+step c); call = correlation): weights sum to one and annihilate every modelled power for any field "
         "with distinct nodes; nodes proved distinct for real rho>1 and complex |rho|>1; a sequence L+sum a_c h^(k_c) is "
-        "mapped to L in every slot; number of outputs = len - terms used >= 1; error estimates >= 0; columns independent. "
+        "mapped to L in every slot; number of outputs = len - terms used >= 1; error estimates >= 0 for real and complex sequences and for every (negative, complex) steps (richErrShort_nonneg / richErr_nonneg_complex, on a model generic in the carrier and its absolute value); columns independent. "
         "Tie: exact-rational model vs float rule/call within C*eps*cond, Float model of _estimate_error bitwise. Partial: "
         "pinv rounding and ill-conditioning (rho near 1) are outside the model.",
    technique="Lean 4 proof (Lagrange coefficient lemma, any field / R / C) + exact-rational and bit-exact correspondence"),
@@ -65,9 +65,11 @@ CLAIMS = {
         "epsalg_one_transient proves L + a q^k is recovered from three terms with no zero denominator; "
         "dea_abserr_floor_every_call proves abserr >= 5 eps |result| on every successful Dea call (after the two fix: commits). "
         "Tie: the Float models of EpsAlg and of Dea (checked array accesses, numpy slice semantics, res3la view, table shift) "
-        "reproduce the implementation bit for bit including _n, _nres, the final table and the exception outcome. Partial: "
-        "Dea's totality (no IndexError for every sequence/limexp) is validated by the bit-exact model runs and the search, not "
-        "yet by a theorem; k>1 transients from 2k+1 terms (Wynn's identity) is validated by exact-rational runs only.",
+        "reproduce the implementation bit for bit including _n, _nres, the final table and the exception outcome. dea_total / deaCall_ok "
+        "(Ndt/Proofs/DeaTotal.lean, any carrier incl. the Float instance) prove that Dea is total: the invariant (table size limexp+5, "
+        "_n <= limexp-1) holds initially and after every call, and under it every index of _dea, _shift_table and _update_res3la is in "
+        "range and every slice assignment has matching lengths, for every limexp >= 3 and every sequence of any length and any values. "
+        "Partial: k>1 transients from 2k+1 terms (Wynn's identity) is validated by exact-rational runs only.",
    technique="Lean 4 proof by loop invariant (in-place sweep = Wynn table) + bit-exact Float correspondence incl. state"),
  'C10': dict(
    text="The integer logic of the step generators (_num_step_divisor, min_num_steps, num_steps, default ratio, constructor defaults, "
